@@ -306,6 +306,19 @@ def universe(draw, m: SidModel, types: Optional[List[str]] = None, min_size: int
         if key not in seen:
             seen.add(key)
             ents.append((t, f))
+    # sometimes: a sibling whose free value EXTENDS another entity's value by a separator and a token
+    # (names like 'x' and 'x_y' are ambiguous wherever fields are joined by that separator, e.g. in file names)
+    if names is None and ents and draw(st.integers(0, 3)) == 0:
+        for t, f in list(ents)[:4]:
+            fk = [k for k in m.keys(t) if m.specs[(t, k)].free]
+            if fk:
+                k = fk[-1]
+                g = dict(f)
+                g[k] = f[k] + draw(st.sampled_from(["_", "-", "."])) + draw(st.sampled_from(["y", "w", "x"]))
+                key = (t, tuple(g.items()))
+                if key not in seen:
+                    seen.add(key)
+                    ents.append((t, g))
     return ents
 
 
